@@ -102,6 +102,17 @@ def r2(ctx, facts, cfg, fname, rule, floor):
         if target is not None and target in decls:
             d = decls[target]
             ok_local = "atomic<bool>" in d.get("ty", "") and not d.get("static") and not d.get("tls")
+        # ... and it starts cleared, and nothing on the caller's side sets it
+        starts_false = False
+        if target is not None and target in decls:
+            i = decls[target].get("init")
+            lit = [x for x in walk(i) if x["k"] == "CXXBoolLiteralExpr"] if isnode(i) else []
+            starts_false = len(lit) == 1 and lit[0].get("val") in (0, False)
+            own_sets = [n for n in f.walk() if (atomic_op(n) or {}).get("kind") in ("store", "rmw") and var_ref(atomic_op(n)["obj"]) == target]
+            starts_false = starts_false and not own_sets
+        ctx.ob(rule + "d", site + ":flag-starts-cleared", starts_false,
+               "the flag is initialised to false and only read on the caller's side: 'set' can only mean that the backend processed "
+               "this request", loc=c["loc"], fn=f)
         ctx.ob(rule + "a", site + ":flag-is-local", ok_local,
                "the word sent to the backend is the address of an automatic std::atomic<bool> of this call (not a member/static shared "
                "between concurrent callers)", loc=c["loc"], fn=f)
